@@ -3,7 +3,7 @@ package main
 // Go→Lean translator for the SYNTAX layer: lib/syntax/directives, lib/syntax/scanner, lib/syntax/parser.
 //
 // Same idea as trans*.go (definitions regenerated from /repo's source on every run, each proved equal to the hand-written model:
-// lean/Knut/FactsAgree/TransScanner.lean, TransParser.lean), but a reading of Go of its own, because this layer needs what the
+// lean/Knut/FactsAgree/TransScanner.lean, TransParser.lean … TransParser4.lean, ending in ParseFile_agrees), but a reading of Go of its own, because this layer needs what the
 // model/journal layer excludes (lean/Knut/GoSem/Syntax.lean is its prelude):
 //   string            its BYTES (Syn.GoString = List UInt8); constants are `Syn.lit "…"`; len / s[lo:hi] count bytes
 //   rune              Int (compared and tested only); constants are folded ('-' is 45, scanner.EOF is -1)
